@@ -352,3 +352,193 @@ func checkDescent(r *Report, p *Prog, sc *Scope, rule string) {
 		r.OK(rule, "xmlenc.Decrypt: no recursive call in the decrypt scope", p.Pos(p.MustFunc("xmlenc", "", "Decrypt").Pos()), "the call graph under Decrypt is acyclic")
 	}
 }
+
+// hashImpl: the package whose init registers the implementation of each crypto.Hash identifier; (crypto.Hash).New panics
+// for an identifier whose package is not linked into the program.
+var hashImpl = map[int64][]string{
+	1: {"golang.org/x/crypto/md4"}, 2: {"crypto/md5"}, 3: {"crypto/sha1"}, 4: {"crypto/sha256"}, 5: {"crypto/sha256"},
+	6: {"crypto/sha512"}, 7: {"crypto/sha512"}, 8: {}, 9: {"golang.org/x/crypto/ripemd160"},
+	10: {"crypto/sha3", "golang.org/x/crypto/sha3"}, 11: {"crypto/sha3", "golang.org/x/crypto/sha3"},
+	12: {"crypto/sha3", "golang.org/x/crypto/sha3"}, 13: {"crypto/sha3", "golang.org/x/crypto/sha3"},
+	14: {"crypto/sha512"}, 15: {"crypto/sha512"}, 16: {"golang.org/x/crypto/blake2s"},
+	17: {"golang.org/x/crypto/blake2b"}, 18: {"golang.org/x/crypto/blake2b"}, 19: {"golang.org/x/crypto/blake2b"},
+}
+
+// checkHashLinked: C11.hash-linked. Every crypto.Hash identifier that can be the receiver of (crypto.Hash).New in the
+// library is a constant whose implementing package is among the program's packages. The receiver is traced field-based
+// (every store to the same struct field in the module), through phis, globals, module callees and parameters. A receiver
+// that cannot be traced to constants is reported as such.
+func checkHashLinked(r *Report, p *Prog, rule string) {
+	linked := func(k int64) (bool, string) {
+		for _, path := range hashImpl[k] {
+			if p.SSA.ImportedPackage(path) != nil {
+				return true, path
+			}
+		}
+		return false, strings.Join(hashImpl[k], " or ")
+	}
+	var trace func(v ssa.Value, seen map[ssa.Value]bool, depth int) string
+	fieldStores := func(st *types.Struct, idx int) []ssa.Value {
+		var out []ssa.Value
+		for _, fn := range p.modFns {
+			for _, b := range fn.Blocks {
+				for _, in := range b.Instrs {
+					s, ok := in.(*ssa.Store)
+					if !ok {
+						continue
+					}
+					fa, ok := s.Addr.(*ssa.FieldAddr)
+					if !ok || fa.Field != idx {
+						continue
+					}
+					if pt, ok := fa.X.Type().Underlying().(*types.Pointer); ok && types.Identical(pt.Elem().Underlying(), st) {
+						out = append(out, s.Val)
+					}
+				}
+			}
+		}
+		return out
+	}
+	trace = func(v ssa.Value, seen map[ssa.Value]bool, depth int) string {
+		if seen[v] {
+			return ""
+		}
+		seen[v] = true
+		if depth > 8 {
+			return "could not be traced to constants"
+		}
+		switch x := v.(type) {
+		case *ssa.Const:
+			if x.Value == nil {
+				return "can be 0, for which New panics"
+			}
+			k := x.Int64()
+			if ok, where := linked(k); !ok {
+				return fmt.Sprintf("can be crypto.Hash(%d), whose implementation (%s) is not linked into the program", k, where)
+			}
+			return ""
+		case *ssa.Phi:
+			for _, e := range x.Edges {
+				if why := trace(e, seen, depth+1); why != "" {
+					return why
+				}
+			}
+			return ""
+		case *ssa.ChangeType:
+			return trace(x.X, seen, depth+1)
+		case *ssa.Convert:
+			return trace(x.X, seen, depth+1)
+		case *ssa.Field:
+			if st, ok := x.X.Type().Underlying().(*types.Struct); ok {
+				for _, s := range fieldStores(st, x.Field) {
+					if why := trace(s, seen, depth+1); why != "" {
+						return why
+					}
+				}
+				return ""
+			}
+		case *ssa.UnOp:
+			if x.Op != token.MUL {
+				break
+			}
+			switch a := x.X.(type) {
+			case *ssa.FieldAddr:
+				if pt, ok := a.X.Type().Underlying().(*types.Pointer); ok {
+					if st, ok := pt.Elem().Underlying().(*types.Struct); ok {
+						vals := fieldStores(st, a.Field)
+						for _, s := range vals {
+							if why := trace(s, seen, depth+1); why != "" {
+								return why
+							}
+						}
+						if len(vals) == 0 {
+							return "is a field no module code assigns (0, for which New panics)"
+						}
+						return ""
+					}
+				}
+			case *ssa.Global:
+				n := 0
+				for _, fn := range p.modFns {
+					for _, b := range fn.Blocks {
+						for _, in := range b.Instrs {
+							if s, ok := in.(*ssa.Store); ok && s.Addr == ssa.Value(a) {
+								n++
+								if why := trace(s.Val, seen, depth+1); why != "" {
+									return why
+								}
+							}
+						}
+					}
+				}
+				if n > 0 {
+					return ""
+				}
+			}
+		case *ssa.Call:
+			if sc := x.Call.StaticCallee(); sc != nil && p.InModule(sc) && len(sc.Blocks) > 0 {
+				for _, ret := range returnsOf(sc) {
+					if len(ret.Results) > 0 {
+						if why := trace(ret.Results[0], seen, depth+1); why != "" {
+							return why
+						}
+					}
+				}
+				return ""
+			}
+		case *ssa.Parameter:
+			fn := x.Parent()
+			idx := -1
+			for i, pa := range fn.Params {
+				if pa == x {
+					idx = i
+				}
+			}
+			sites := p.CallersOf(fn)
+			if idx >= 0 && len(sites) > 0 {
+				for _, cs := range sites {
+					args := cs.Instr.Common().Args
+					j := idx - cs.Shift
+					if cs.Instr.Common().IsInvoke() || j < 0 || j >= len(args) {
+						return "could not be traced to constants"
+					}
+					if why := trace(args[j], seen, depth+1); why != "" {
+						return why
+					}
+				}
+				return ""
+			}
+			if fn.Object() != nil && fn.Object().Exported() {
+				return "" // the caller's choice: outside the library
+			}
+		}
+		return "could not be traced to constants"
+	}
+	n := 0
+	for _, fn := range p.modFns {
+		if !p.InLibrary(fn) {
+			continue
+		}
+		for _, b := range fn.Blocks {
+			for _, in := range b.Instrs {
+				c, ok := in.(ssa.CallInstruction)
+				if !ok {
+					continue
+				}
+				sc := c.Common().StaticCallee()
+				if sc == nil || sc.Name() != "New" || sc.Signature.Recv() == nil || len(c.Common().Args) == 0 {
+					continue
+				}
+				if nm, ok := sc.Signature.Recv().Type().(*types.Named); !ok || nm.Obj().Pkg() == nil || nm.Obj().Pkg().Path() != "crypto" || nm.Obj().Name() != "Hash" {
+					continue
+				}
+				n++
+				why := trace(c.Common().Args[0], map[ssa.Value]bool{}, 0)
+				r.Check(why == "", rule, "(crypto.Hash).New in "+shortFn(fn)+" is asked only for linked digests", p.InstrPos(in), "every identifier that reaches the receiver is a constant whose implementing package is part of the program", "the receiver "+why+": New panics (\"requested hash function is unavailable\") instead of the operation returning an error")
+			}
+		}
+	}
+	if n == 0 {
+		r.Check(true, rule, "the library never asks package crypto for a digest by identifier", "-", "no call of (crypto.Hash).New in library code: digests are constructed by direct reference to their packages, which links them", "")
+	}
+}
